@@ -5,6 +5,7 @@ package harness
 // constraint violation must be refused. The key type x purpose table is written out from the documented intent.
 
 import (
+	"fmt"
 	"strings"
 	"testing"
 
@@ -19,7 +20,15 @@ func validateValue(p map[string]interface{}) error {
 	if err != nil {
 		return err
 	}
-	return patchvalidator.Validate(lp)
+	v1 := patchvalidator.Validate(lp)
+	// the verdict is a function of the patch: asking again (same value, and the same bytes parsed afresh) gives the same answer
+	lp2, _ := libPatch(p)
+	for _, again := range []error{patchvalidator.Validate(lp), patchvalidator.Validate(lp2)} {
+		if (v1 == nil) != (again == nil) {
+			panic(fmt.Sprintf("C13 the validator's verdict on one and the same patch changed between calls: first %v, then %v\n patch=%s", v1, again, refJCS(p)))
+		}
+	}
+	return v1
 }
 
 type mutation struct {
@@ -411,7 +420,7 @@ func TestC13_OriginalDocuments(t *testing.T) {
 		if err := didv.IsValidOriginalDocument(b); err != nil {
 			t.Fatalf("C13 DID validator refused a document without id/context: %v\n%s", err, b)
 		}
-		kind := rapid.IntRange(0, 2).Draw(t, "carry")
+		kind := rapid.IntRange(0, 3).Draw(t, "carry")
 		bad := deepCopyValue(doc).(map[string]interface{})
 		label := ""
 		switch kind {
@@ -427,6 +436,11 @@ func TestC13_OriginalDocuments(t *testing.T) {
 				bad["@context"] = []interface{}{"https://www.w3.org/ns/did/v1", map[string]interface{}{"@base": "did:example:123"}}
 			}
 			label = "with-context-list"
+		case 3:
+			// a context of any other JSON shape is a context too
+			bad["@context"] = rapid.SampledFrom([]interface{}{map[string]interface{}{"@vocab": "https://www.w3.org/ns/did#"}, map[string]interface{}{"@base": "did:example:123"},
+				float64(1), true, []interface{}{map[string]interface{}{"@base": "did:example:123"}}}).Draw(t, "contextValue")
+			label = "with-context-other-shape"
 		default:
 			bad["@context"] = "https://www.w3.org/ns/did/v1"
 			label = "with-context-string"
